@@ -1,5 +1,5 @@
 SPECIFICATION SpecMC
-CONSTANTS MaxSecs = 3 MaxOpts = 1 MaxMem = 2 MaxTop = 2 Mode = "mc"
+CONSTANTS MaxSecs = 3 MaxOpts = 1 MaxMem = 2 MaxTop = 2 MaxDocs = 1 MaxSteps = 0 Mode = "mc"
 VIEW View
 INVARIANTS TypeOK Refines Contained BindsNamed CopiesEqual
 PROPERTIES OptFrame Reported OpenFrame
